@@ -30,6 +30,39 @@ RENDER = [
 ]
 
 
+_FAMILY: dict[int, set[str]] = {}
+
+
+def _fail_family(repo) -> set[str]:
+    """ParserState.__init__, fail, and the methods of ParserState that are referenced only from inside that family
+    (helpers fail() was split into): whoever writes the record there writes it on behalf of fail()."""
+    if id(repo) in _FAMILY:
+        return _FAMILY[id(repo)]
+    from ..repo import qualname_of
+
+    cls = repo.cls(STATE_REL, "ParserState")
+    methods = {s.name for s in cls.body if isinstance(s, ast.FunctionDef)}
+    refs: dict[str, set[str]] = {m_: set() for m_ in methods}
+    for rel in repo.py_files:
+        m = repo.mod(rel)
+        for n in ast.walk(m.tree):
+            if isinstance(n, ast.Attribute) and n.attr in methods:
+                q = qualname_of(m, n)
+                inside = rel == STATE_REL and q.startswith("ParserState.") and isinstance(n.value, ast.Name) and n.value.id == "self"
+                refs[n.attr].add(q if inside else f"<outside {rel}::{q}>")
+    fam = {"ParserState.__init__", "ParserState.fail"}
+    changed = True
+    while changed:
+        changed = False
+        for m_ in methods:
+            q = f"ParserState.{m_}"
+            if q not in fam and m_.startswith("_") and refs[m_] and refs[m_] <= fam:
+                fam.add(q)
+                changed = True
+    _FAMILY[id(repo)] = fam
+    return fam
+
+
 def provenance(check: Check, repo) -> None:
     # who writes the furthest-failure record
     fields = ("furthest_pos", "furthest_expected", "furthest_unexpected", "furthest_stack")
@@ -42,7 +75,7 @@ def provenance(check: Check, repo) -> None:
                     from ..repo import qualname_of
 
                     q = qualname_of(m, n)
-                    ok = rel == STATE_REL and q in ("ParserState.__init__", "ParserState.fail")
+                    ok = rel == STATE_REL and q in _fail_family(repo)
                     check.count("furthest_writes")
                     check.oblige("FURTHEST", f"{rel}::{q}", f"{t.attr} written in {q}" if ok else f"{t.attr} is written outside ParserState.__init__/fail", ok,
                                  finding=Finding("FURTHEST", f"{rel}::{q}", f"{t.attr} is written outside ParserState.__init__/fail", f"{q} assigns {ast.unparse(t)}: the furthest-failure record no longer comes from fail() alone", {}))
